@@ -346,3 +346,31 @@ PROPS["C16"] = dict(
     assumptions=["std::deque is the bounded-deque model; a moved-from RingBuffer is only destroyed, assigned "
                  "to or re-allocated", SAN_ASSUME],
 )
+
+# ----------------------------------------------------------------------------- C13
+_C13_PARTS = ["dary", "addr", "radix_narrow", "radix_wide"]
+PROPS["C13"] = dict(
+    units={n: dict(src=["harness/C13_heaps.cpp"], flags=["-DVERIF_PART=%d" % i])
+           for i, n in enumerate(_C13_PARTS)},
+    quick=[R(n, "asan", 2, 100) for n in _C13_PARTS] + [R(n, "plain", 2, 800) for n in _C13_PARTS],
+    thorough=[R(n, "asan", 4, 8000, timeout=7200) for n in _C13_PARTS]
+    + [R(n, "plain", 4, 80000, timeout=7200) for n in _C13_PARTS],
+    rule="a case = 12 rounds; a round = one DAryHeap history (arity 1..8 x {int/less, int/greater, record "
+         "ordered by priority only, heap-owning Tracked descending}), two DAryAddressableIntHeap histories "
+         "(arity 1..8, 32/64-bit keys, ascending/descending comparator over an external priority table) and "
+         "two RadixHeapPair histories (key type u8/i8/u16/i16/u32/i32/u64/i64 x radix 2/4/8/16/64). "
+         "Histories have 30..400 ops: push (lvalue/rvalue/emplace/bucket-hinted), pop, extract_top, top, "
+         "remove(key), single-priority change (increase/decrease/same) + update(key) incl. absent keys, "
+         "mass priority change + update_all, build_heap (3 overloads, on empty and non-empty heaps), clear, "
+         "reserve, copy/move round trips, swap_top_bucket, peak_top_key; radix keys are monotone w.r.t. the "
+         "last top()/pop()/swap_top_bucket() and include the type minimum/maximum, the limit itself and "
+         "power-of-two offsets. After every op: size/empty, top is a member with a minimal priority, "
+         "contains() of every key of the universe and of keys beyond the handle table, sanity_check(), "
+         "ledger.live == size for Tracked; final drain is ordered and multiset-equal. Classes: heap x config.",
+    require=dict(any=["dary_histories", "addr_histories", "radix_histories", "addr_build_heap_nonempty",
+                      "addr_update_increase", "addr_update_decrease", "radix_reorganisations",
+                      "radix_key_type_max", "radix_swap_top_bucket"]),
+    assumptions=["linear scans of a shadow multiset are the reference; among equal priorities any element may "
+                 "surface", "radix heap is only driven with keys >= the key returned by the most recent "
+                 "top()/pop()/swap_top_bucket() (its documented precondition)", SAN_ASSUME],
+)
